@@ -67,23 +67,23 @@ ANCHORS = [
 # the enumeration counters are exact totals: an incomplete enumeration is inconclusive, never "held"
 MIN_COUNTERS = {
     "quick": {"enum_n1": 2, "enum_n2": 32, "enum_n3": 3072, "enum_n4_loopfree_identity": 4096, "enum_n4_sampled": 8192,
-              "sequence_oracle_evaluations": 19000, "coupling_oracle_evaluations": 19000,
-              "dependency_graph_oracle_evaluations": 1500, "directed_cases": 28, "random_cases": 4000,
+              "sequence_oracle_evaluations": 17000, "coupling_oracle_evaluations": 17000,
+              "dependency_graph_oracle_evaluations": 1500, "directed_cases": 28, "random_cases": 2000,
               "random_cases_with_scc": 1300, "random_cases_with_duplicated_names": 600,
               "exec_oracle_evaluations": 2300, "exec_mdochain_acyclic": 140, "exec_mdachain_acyclic": 130,
               "exec_mdachain-parallel_acyclic": 140, "exec_initchain_acyclic": 140, "exec_mdachain_cyclic": 430,
               "exec_mdachain-gs_cyclic": 450, "exec_mdachain-parallel_cyclic": 430,
               "exec_mdachain-initdefaults_cyclic": 440, "exec_coupling_guess_passed": 500},
     "thorough": {"enum_n1": 2, "enum_n2": 32, "enum_n3": 3072, "enum_n4": 4096 * 16 * 24,
-                 "sequence_oracle_evaluations": 1600000, "coupling_oracle_evaluations": 1600000,
-                 "dependency_graph_oracle_evaluations": 15000, "directed_cases": 28, "random_cases": 64000,
+                 "sequence_oracle_evaluations": 1590000, "coupling_oracle_evaluations": 1590000,
+                 "dependency_graph_oracle_evaluations": 15000, "directed_cases": 28, "random_cases": 32000,
                  "random_cases_with_scc": 20000, "random_cases_with_duplicated_names": 9000,
                  "exec_oracle_evaluations": 25000, "exec_mdochain_acyclic": 1000, "exec_mdachain_acyclic": 1000,
                  "exec_mdachain-parallel_acyclic": 1000, "exec_initchain_acyclic": 1000, "exec_mdachain_cyclic": 5000,
                  "exec_mdachain-gs_cyclic": 5000, "exec_mdachain-parallel_cyclic": 5000,
                  "exec_mdachain-initdefaults_cyclic": 5000, "exec_coupling_guess_passed": 10000},
 }
-SHARD_TIMEOUT = {"quick": 1200, "thorough": 6000}  # generous: only a cap (16 idle cores: ~25 s / ~3 min)
+SHARD_TIMEOUT = {"quick": 2400, "thorough": 8000}  # generous: only a cap (16 idle cores: ~25 s / ~3 min)
 
 N_SHARDS = 16
 ENUM_TOTAL = {1: 2, 2: 32, 3: 3072, 4: 4096 * 16 * 24}
@@ -100,7 +100,7 @@ def shards(tier, seed):
             "n_random": {"quick": 250, "thorough": 4000}[tier],
             "exec_fraction_enum": {"quick": {3: 0.12, 4: 0.12}, "thorough": {3: 0.5, 4: 0.01}}[tier],
             "exec_fraction_random": {"quick": 0.25, "thorough": 0.3}[tier],
-            "budget_s": {"quick": 900, "thorough": 5000}[tier],
+            "budget_s": {"quick": 2000, "thorough": 7000}[tier],
         })
     return out
 
